@@ -299,6 +299,11 @@ def check_case(ctx, case, obs):
     exp = expected(px, py, x, y)
 
     def fail(kind, desc):
+        n = getattr(ctx, 'c06_listed', 0)
+        if n >= 35 and hasattr(ctx, 'count'):     # leave room in the (capped) failure list for the hash-seed stage
+            ctx.count('oracle_failures_not_listed')
+            return
+        ctx.c06_listed = n + 1
         ctx.fail(kind, f"Unification({case['px']!r}, {case['py']!r})({str(x)!r}, {str(y)!r}): {desc}", data)
 
     got = obs['flag']
@@ -454,7 +459,34 @@ def make_cases(ctx, n_total):
             x, y = build(ppx, envy), build(ppy, envx)
         add('xconf', px, py, x, y)
     rng.shuffle(cases)
+    # fixed corpus (run first): the suite's own examples, boundary cases, and the order-dependent outcomes of mixed systems
+    head, cases[:] = list(cases), []
+    for px, py, x, y in CORPUS:
+        add('corpus', px, py, Category.parse(x), Category.parse(y))
+    cases.extend(head)
     return cases
+
+
+JA1, JAX, JAX2 = 'S[mod=nm,form=base,fin=f]', 'S[mod=X1,form=X2,fin=X3]', 'S[mod=X1,form=X2,fin=f]'
+CORPUS = [
+    ('(((a/b)/c)/d)/e', 'f', '(((a/b)/c)/d)/e', 'f'), ('a/b', 'c', '(((a/b)/c)/d)/e', 'f'),
+    ('a/b', 'b', 'S[X]/NP[X]', 'NP[mod]'),
+    ('(a\\b)/c', 'c', f'({JA1}\\{JA1})/{JA1}', JA1), ('(a\\b)/c', 'c', f'({JAX}\\{JAX})/{JAX}', JA1), ('(a\\b)/c', 'c', f'({JAX2}\\{JAX2})/{JAX2}', JA1),
+    # shape
+    ('a/b', 'b', 'S', 'NP'), ('a/b', 'b', 'S\\NP', 'NP'), ('a/b', 'b', 'S|NP', 'NP'), ('a|b', 'b', 'S\\NP', 'NP'), ('(b/c)|d', 'a\\b', '(S/NP)\\N', 'PP\\S'),
+    ('a', 'b', 'S/NP', '(S\\NP)/NP'),
+    # agreement (also inside one pattern; the last binding is the one kept)
+    ('a/a', 'b', 'S[b]/S[dcl]', 'N'), ('a/a', 'b', 'S/NP', 'N'), ('a/b', 'b', 'S/(NP/N)', 'NP'), ('a/b', 'b', 'S/NP', 'NP/N'), ('(a/b)/a', 'a', '(S[X]/N)/S[b]', 'S[dcl]'),
+    # features: nb, absent, X, clash, one variable feature meeting two values
+    ('a/b', 'b', 'NP[nb]/N', 'N[nb]'), ('a/b', 'b', 'S/NP[nb]', 'NP[conj]'), ('a/b', 'b', 'S/NP', 'NP[conj]'), ('a/b', 'b', 'S/NP[dcl]', 'NP[b]'),
+    ('a/b', 'b', 'S/NP[dcl]', 'NP[X]'), ('a/b', 'b', 'S[X]/(NP[X]/N[X])', 'NP[dcl]/N[b]'), ('a/b', 'b', 'S[X]/(NP[dcl]/N[b])', 'NP[X]/N[X]'),
+    ('a/b', 'b', 'S/NP[case=X1,mod=nm,fin=f]', 'NP[case=ga,mod=X2,fin=f]'), ('a/b', 'b', 'S/NP[case=X1,mod=X2,fin=f]', 'NP[case=ga,mod=nm,fin=f]'),
+    ('a/b', 'b', 'S/NP[case=ga,mod=nm,fin=f]', 'NP[mod=ga,case=nm,fin=f]'),
+    # mixed systems: the first test that is not true decides between False and AttributeError
+    ('a/b', 'b', 'S[X]/(NP[X]/N[dcl])', 'NP[b]/N[case=nc,mod=nm,fin=f]'), ('a/b', 'b', 'S/(NP[dcl]/N[dcl])', 'NP[b]/N[case=nc,mod=nm,fin=f]'),
+    ('a/b', 'b', 'S/(NP[dcl]/N[dcl])', 'NP[case=nc,mod=nm,fin=f]/N[b]'), ('a/b', 'b', 'S/NP', 'NP[case=nc,mod=nm,fin=f]'), ('a/b', 'b', 'S/NP[case=nc,mod=nm,fin=f]', 'NP'),
+    ('a/b', 'b', 'S/NP[X]', 'NP[case=nc,mod=nm,fin=f]'),
+]
 
 
 def refeat_all(c, v):
@@ -571,9 +603,17 @@ def run(ctx):
                      'bindings stay readable; the model has no object state after an exception and the property does not speak about it: not compared'])
 
 
+class _ReplayCtx:
+    def __init__(self):
+        self.fails = []
+
+    def fail(self, kind, desc, data):
+        self.fails.append((kind, desc))
+
+
 def replay(data):
-    """re-run the recorded failing inputs on the implementation"""
-    n = 0
+    """re-run the recorded failing inputs on the implementation; exit 1 iff a violation reproduces"""
+    rc = _ReplayCtx()
     for f in data.get('failures', []):
         d = f['data']
         px, py, x, y = d['px'], d['py'], Category.parse(d['x']), Category.parse(d['y'])
@@ -581,10 +621,15 @@ def replay(data):
         for v in pattern_names(Category.parse(px)) + pattern_names(Category.parse(py)):
             if v not in names:
                 names.append(v)
-        obs = c06_obs.observe(px, py, x, y, names + ['q'])
-        exp = expected(Category.parse(px), Category.parse(py), x, y)
-        print(f"{f['kind']}: Unification({px!r}, {py!r})({d['x']!r}, {d['y']!r}) -> {c06_obs.plain(obs)}; the property requires {exp['flag']} ({exp['why']})")
-        n += 1
+        names.append('q')
+        case = {'kind': d.get('kind', 'replay'), 'px': px, 'py': py, 'ppx': Category.parse(px), 'ppy': Category.parse(py), 'x': x, 'y': y, 'names': names}
+        obs = c06_obs.observe(px, py, x, y, names)
+        n0 = len(rc.fails)
+        check_case(rc, case, obs)
+        state = 'REPRODUCED' if len(rc.fails) > n0 else 'not reproduced on the current source'
+        print(f"{f['kind']}: Unification({px!r}, {py!r})({d['x']!r}, {d['y']!r}) -> {c06_obs.plain(obs)['flag']} {c06_obs.plain(obs)['reads']}: {state}")
     for b in data.get('broken_obligations', []):
-        print('broken obligation:', b if isinstance(b, str) else (b.get('name') if isinstance(b, dict) else b))
-    return 1 if n else 0
+        print('broken obligation:', b[0] if isinstance(b, (list, tuple)) else (b.get('name') if isinstance(b, dict) else b))
+    if rc.fails:
+        print(f'VIOLATION property=C06 ({len(rc.fails)} recorded failure(s) reproduce)')
+    return 1 if rc.fails else 0
